@@ -36,7 +36,25 @@ fn fresh_eval(ei: usize, mutated: bool, rng: &ScriptRng) -> Option<(Result<Out, 
     }).join().ok().flatten()
 }
 
-pub fn run_instance(sched: &Value, ea: &Entry, eb: &Entry, ca: i64, cb: i64, seed: u64, out: &mut Vec<String>,
+/// history-free-by-construction references: sample() of each registry entry on the run's first RNG state, evaluated
+/// once per seed in registry order before any instance runs (a history different from every instance's history:
+/// hidden process-global state shows up as a disagreement with the values observed inside the instances)
+pub type Pristine = HashMap<(u64, usize), (Result<Out, String>, ScriptRng)>;
+pub fn pristine_pass(reg: &[Entry], seeds: &[u64]) -> Pristine {
+    let mut m = HashMap::new();
+    for &sd in seeds {
+        for (i, e) in reg.iter().enumerate() {
+            if e.variant == "beyond-E" { continue; }
+            let Some(obj) = (e.make)() else { continue };
+            let mut r = seed_rng(sd, 1);
+            let o = guarded(|| obj.sample(&mut r));
+            m.insert((sd, i), (o, r));
+        }
+    }
+    m
+}
+
+pub fn run_instance(sched: &Value, ea: &Entry, eb: &Entry, ca: i64, cb: i64, seed: u64, out: &mut Vec<String>, pristine: &Pristine,
                     roundtrip: &dyn Fn(&dyn Obj) -> Option<Result<Box<dyn Obj>, String>>) -> bool {
     let (Some(a1), Some(b1), Some(a3)) = ((ea.make)(), (eb.make)(), (ea.make)()) else { return false };
     let mut objs: Vec<Box<dyn Obj>> = vec![a1, b1, a3];
@@ -48,6 +66,13 @@ pub fn run_instance(sched: &Value, ea: &Entry, eb: &Entry, ca: i64, cb: i64, see
     let mut did: Intern<String> = Intern::new();
     let st0 = sid.id(rng_key(&rngs[0]));
     out.push(json!({"op": "reset", "ca": ca, "cb": cb, "st": st0, "a": ea.label(), "b": eb.label()}).to_string());
+    for (o, c) in [(1i64, ca), (2i64, cb)] {
+        if let Some((res, post_rng)) = pristine.get(&(seed, c as usize - 1)) {
+            let (rs, outid) = match res { Ok(x) => ("Ok".to_string(), oid.id(x.bits.clone())), Err(p) => (format!("Panic: {}", p), 0) };
+            let post = sid.id(rng_key(post_rng));
+            out.push(json!({"op": "sample", "o": o, "r": 0, "pre": st0, "out": outid, "post": post, "res": rs, "fresh": true, "pristine": true}).to_string());
+        }
+    }
     let mut sample_ev = |objs: &Vec<Box<dyn Obj>>, o: usize, rng: &mut ScriptRng, rlabel: i64,
                          sid: &mut Intern<(Vec<u64>, u64)>, oid: &mut Intern<Vec<u64>>, out: &mut Vec<String>| {
         let pre = sid.id(rng_key(rng));
@@ -165,7 +190,9 @@ pub fn replay_with(args: &[String], roundtrip: &dyn Fn(&dyn Obj) -> Option<Resul
     scheds.truncate(keep.max(1));
     scheds.extend(special);
     let mut f = std::io::BufWriter::new(std::fs::File::create(&outp).unwrap());
-    let mut events = 0u64; let mut instances = 0u64; let mut skipped = 0u64;
+    let seeds: Vec<u64> = (0..scheds.len()).map(|si| seed.wrapping_add(si as u64)).collect();
+    let pristine = pristine_pass(&reg, &seeds);
+    let mut events = 0u64; let mut instances = 0u64; let mut skipped = 0u64; let mut twins = 0u64;
     let mut buf: Vec<String> = vec![];
     for (si, sc) in scheds.iter().enumerate() {
         for (i, ea) in reg.iter().enumerate() {
@@ -174,13 +201,17 @@ pub fn replay_with(args: &[String], roundtrip: &dyn Fn(&dyn Obj) -> Option<Resul
             let j = (i + 1 + si * 7) % reg.len();
             let mut j = if j == i { (j + 1) % reg.len() } else { j };
             while reg[j].variant == "beyond-E" || j == i { j = (j + 1) % reg.len(); }
-            if si % 2 == 0 {
+            if si % 3 == 2 {
+                // twin: the same family, variant and parameters in the other float type (state shared across instantiations)
+                if let Some(t) = (0..reg.len()).find(|&k| k != i && reg[k].family == ea.family && reg[k].ft != ea.ft && reg[k].variant == ea.variant && reg[k].params.len() == ea.params.len() && reg[k].params.iter().zip(&ea.params).all(|(a, b)| a == b || (a - b).abs() <= 1e-6 * b.abs()) && reg[k].ft != "int" && ea.ft != "int") { j = t; twins += 1; }
+            }
+            if si % 3 == 0 {
                 // sibling: the neighbouring entry of the same family and float type (near-miss parameters)
                 let sib = |k: usize| reg[k].family == ea.family && reg[k].ft == ea.ft && k != i;
                 if i + 1 < reg.len() && sib(i + 1) { j = i + 1; } else if i > 0 && sib(i - 1) { j = i - 1; }
             }
             buf.clear();
-            if run_instance(sc, ea, &reg[j], i as i64 + 1, j as i64 + 1, seed.wrapping_add(si as u64), &mut buf, roundtrip) {
+            if run_instance(sc, ea, &reg[j], i as i64 + 1, j as i64 + 1, seed.wrapping_add(si as u64), &mut buf, &pristine, roundtrip) {
                 instances += 1; events += buf.len() as u64;
                 for l in &buf { writeln!(f, "{}", l).unwrap(); }
             } else { skipped += 1; }
@@ -189,7 +220,7 @@ pub fn replay_with(args: &[String], roundtrip: &dyn Fn(&dyn Obj) -> Option<Resul
     f.flush().unwrap();
     let variants: std::collections::BTreeSet<String> = reg.iter().map(|e| format!("{}:{}", e.family, e.variant)).collect();
     println!("{}", json!({"tool": "obj-replay", "schedules_seen": total, "schedules_used": scheds.len(), "registry_entries": reg.len(),
-        "instances": instances, "events": events, "constructor_failed": skipped, "variants": variants,
+        "instances": instances, "twin_instances": twins, "pristine_references": pristine.len(), "events": events, "constructor_failed": skipped, "variants": variants,
         "sample_schedule": scheds.first()}));
     0
 }
